@@ -105,6 +105,46 @@ func init() {
 			return "", err
 		}
 		followCalls := callOrder(fo.Body, map[string]bool{"applyNewLTXFiles": true, "WriteTXIDFile": true})
+		// --- page size decode of follow: `pageSize := <big-endian 16 bit of header bytes 16..17>`,
+		// `if pageSize == N { pageSize = M }`
+		psDecode, psSpecial, psValue := "", "", ""
+		for _, st := range fo.Body.List {
+			switch x := st.(type) {
+			case *ast.AssignStmt:
+				if len(x.Lhs) == 1 && len(x.Rhs) == 1 && x.Tok == token.DEFINE {
+					if id, ok := x.Lhs[0].(*ast.Ident); ok && id.Name == "pageSize" {
+						src := c.src(x.Rhs[0])
+						switch strings.ReplaceAll(src, " ", "") {
+						case "uint32(buf[0])<<8|uint32(buf[1])", "uint32(binary.BigEndian.Uint16(buf[:]))":
+							psDecode = "be16"
+						default:
+							return "", fmt.Errorf("follow: page size decode outside the translatable subset: %s", src)
+						}
+					}
+				}
+			case *ast.IfStmt:
+				be, ok := x.Cond.(*ast.BinaryExpr)
+				if !ok || be.Op != token.EQL {
+					continue
+				}
+				if id, ok := be.X.(*ast.Ident); !ok || id.Name != "pageSize" || len(x.Body.List) != 1 {
+					continue
+				}
+				as, ok := x.Body.List[0].(*ast.AssignStmt)
+				if !ok || len(as.Rhs) != 1 {
+					continue
+				}
+				if psSpecial, err = c.nat(be.Y); err != nil {
+					return "", fmt.Errorf("follow: %w", err)
+				}
+				if psValue, err = c.nat(as.Rhs[0]); err != nil {
+					return "", fmt.Errorf("follow: %w", err)
+				}
+			}
+		}
+		if psDecode == "" || psSpecial == "" {
+			return "", fmt.Errorf("follow: page size decode (`pageSize := …; if pageSize == N { pageSize = M }`) not found")
+		}
 		ap, err := p.funcDecl("Replica", "applyLTXFile")
 		if err != nil {
 			return "", err
@@ -114,6 +154,7 @@ func init() {
 		sb.WriteString("import Litestream.Model.Follow\nnamespace Litestream.Gen\nopen Litestream.Follow\n\n")
 		fmt.Fprintf(&sb, "/-- replica.go Restore: upper bound of the crash-recovery validation -/\ndef resumeBound : ResumeBound := .%s\n\n", bound)
 		fmt.Fprintf(&sb, "/-- replica.go fillFollowGap: `for level := %s; level < %s; level++` -/\ndef gapLevelLo : Nat := %s\ndef gapLevelHi : Nat := %s\n\n", lo, hi, lo, hi)
+		fmt.Fprintf(&sb, "/-- replica.go follow: page size from header bytes 16..17 (big-endian), `if pageSize == %s { pageSize = %s }` -/\ndef followPageSize (b0 b1 : Nat) : Nat :=\n  let v := b0 * 256 + b1\n  if v = %s then %s else v\n\n", psSpecial, psValue, psSpecial, psValue)
 		fmt.Fprintf(&sb, "/-- replica.go follow: order of the calls in source -/\ndef followCalls : List String := [%s]\n\n", quoteList(followCalls))
 		fmt.Fprintf(&sb, "/-- replica.go applyLTXFile: order of the file operations in source -/\ndef applyCalls : List String := [%s]\n\nend Litestream.Gen\n", quoteList(applyCalls))
 		return sb.String(), nil
